@@ -209,6 +209,7 @@ func c19Encoder(c *Ctx) {
 		}
 	})
 	hasLen, hasPart, hasZero := false, false, false
+	zeroApps := map[*ssa.Call]bool{}
 	var lenApp, partApp *ssa.Call
 	for _, ap := range appends {
 		s := sx.Of(ap.Call.Args[1]).String()
@@ -241,6 +242,7 @@ func c19Encoder(c *Ctx) {
 								if st, ok := r2.(*ssa.Store); ok {
 									if k, ok := intConst(st.Val); ok && k == 0 {
 										hasZero = true
+										zeroApps[ap] = true
 									}
 								}
 							}
@@ -248,6 +250,7 @@ func c19Encoder(c *Ctx) {
 					}
 					if isZeroAlloc(al) {
 						hasZero = true
+						zeroApps[ap] = true
 					}
 				}
 			}
@@ -262,6 +265,47 @@ func c19Encoder(c *Ctx) {
 		_ = ps
 	}
 	r.Check(hasZero, "C19-K2", key("a name ends with a zero byte"), c.P.pos(f.Pos()), "append(…, 0) after the loop", "no zero terminator is appended")
+	// … on every path: each returned value is the terminating append itself or the one-byte literal {0}
+	var endsZero func(v ssa.Value, d int) bool
+	endsZero = func(v ssa.Value, d int) bool {
+		if d > 4 {
+			return false
+		}
+		switch t := v.(type) {
+		case *ssa.Call:
+			return zeroApps[t]
+		case *ssa.Phi:
+			for _, e := range t.Edges {
+				if !endsZero(e, d+1) {
+					return false
+				}
+			}
+			return true
+		case *ssa.Slice:
+			if al, ok := t.X.(*ssa.Alloc); ok {
+				if at, ok := al.Type().(*types.Pointer).Elem().Underlying().(*types.Array); ok && at.Len() == 1 {
+					zero := true
+					for _, ref := range *al.Referrers() {
+						if ia, ok := ref.(*ssa.IndexAddr); ok {
+							for _, r2 := range *ia.Referrers() {
+								if st, ok := r2.(*ssa.Store); ok {
+									if k, ok := intConst(st.Val); !ok || k != 0 {
+										zero = false
+									}
+								}
+							}
+						}
+					}
+					return zero
+				}
+			}
+		}
+		return false
+	}
+	for _, ret := range returnsOf(f) {
+		r.Check(len(ret.Results) == 1 && endsZero(ret.Results[0], 0), "C19-K2", key("every returned encoding ends with the zero byte"), c.P.ipos(ret), "result is append(…, 0) or the literal {0}",
+			"a name can be returned without its terminating zero: the decoder runs it into the next name")
+	}
 	// split on "."
 	okSplit := false
 	allInstrs(f, func(in ssa.Instruction) {
@@ -351,6 +395,16 @@ func c19Decoder(c *Ctx) {
 						jump = bo
 					}
 				}
+				// the two-byte expression may sit in a straight-line helper (pointerOffset(hi, lo)): judged inlined
+				if cl, ok := e.(*ssa.Call); ok {
+					if g := cl.Call.StaticCallee(); g != nil && inModule(g) && g.Blocks != nil && len(g.Blocks) == 1 && !token.IsExported(g.Name()) {
+						if ret, ok := g.Blocks[0].Instrs[len(g.Blocks[0].Instrs)-1].(*ssa.Return); ok && len(ret.Results) == 1 {
+							if bo, ok := ret.Results[0].(*ssa.BinOp); ok && bo.Op == token.ADD && (hasShift(bo.X, 0) || hasShift(bo.Y, 0)) {
+								jump = cl
+							}
+						}
+					}
+				}
 			}
 		}
 	}
@@ -358,7 +412,9 @@ func c19Decoder(c *Ctx) {
 		r.Violation("C19-K3", key("pointer offset computed from two bytes"), c.P.pos(f.Pos()), "no jump target of the form (hi << 8) + lo")
 		return
 	}
-	js := sx.Of(jump).String()
+	sxI := newSymx(c.P)
+	sxI.inline = true
+	js := sxI.Of(jump).String()
 	bs := sx.Of(buf).String()
 	// want: bin[+](bin[<<](conv[int](bin[&^](elem(buf,P-1),const(192))),const(8)),conv[int](elem(buf,P)))
 	okShape := strings.HasPrefix(js, "bin[+](bin[<<](conv[int](bin[&^](elem("+bs+",") && strings.Contains(js, ",const(192))),const(8)),conv[int](elem("+bs+",")
